@@ -571,6 +571,144 @@ example : (fetchTickKeep (fun _ => .apiErr) (some 3) (exPageF (some 0)) 5 {}).2 
     ∧ (fetchTickKeep (fun _ => .apiErr) (some 3) (exPageF (some 0)) 5 {}).1.fromIndex = 0 := by decide
 example : seqsOf (fetchTick (fun _ => .apiErr) (some 3) (exPageF none) 5 {}) = some [10, 11, 12] := by decide
 
+/-! ## a count that moves backwards ("no matter … how the event count moves between requests")
+
+A count poll may answer lower than an earlier one.  The pinned loop starts its page requests at its own cursor whatever the
+count says, and a node never answers a page request with a `nextStart` below the `start` asked for — so the cursor never moves
+back, a lagging backend that has nothing at the cursor changes nothing, and a healthy one serves exactly the positions from the
+cursor on.  Letting the cursor follow the lower count (`fetchTickFollow`) hands positions over twice. -/
+
+/-- the node never sends a client back: every page answer's `nextStart` is at least the `start` it was asked with -/
+def NeverBack (page : Nat → Int → Option Page) : Prop := ∀ k s p, page k s = some p → s ≤ p.next
+
+private theorem pageLoop_from_cursor {page : Nat → Int → Option Page} (hp : NeverBack page) (count : Int) :
+    ∀ (fuel k : Nat) (s : Int) (acc : List Event) (n : Int) (evs : List Event) (r : Nat),
+      pageLoop page count fuel k s acc = .done n evs r → s ≤ n := by
+  intro fuel
+  induction fuel with
+  | zero => intro k s acc n evs r h; simp [pageLoop] at h
+  | succ fuel ih =>
+    intro k s acc n evs r h
+    simp only [pageLoop] at h
+    cases hpg : page k s with
+    | none => simp [hpg] at h
+    | some p =>
+      have hsp := hp k s p hpg
+      simp only [hpg] at h
+      split at h
+      · simp only [LoopRes.done.injEq] at h
+        omega
+      · have := ih (k + 1) p.next _ n evs r h
+        omega
+
+/-- **The cursor never moves back**, whatever the count request answers — lower than the cursor, zero, an error — and whatever
+the pages hold, as long as the node never answers a page request with a `nextStart` below the `start` asked for. -/
+theorem cursor_never_moves_back {page : Nat → Int → Option Page} (hp : NeverBack page) (ans : Bytes → TiAns) (cnt : Option Int)
+    (fuel : Nat) (s : WState) : s.fromIndex ≤ (fetchTick ans cnt page fuel s).1.fromIndex := by
+  cases cnt with
+  | none => simp [fetchTick]
+  | some c =>
+    by_cases hcf : c = s.fromIndex
+    · simp [fetchTick, hcf]
+    · cases hl : pageLoop page c fuel 0 s.fromIndex [] with
+      | done next evs r =>
+        have := pageLoop_from_cursor hp c fuel 0 s.fromIndex [] next evs r hl
+        simpa [fetchTick, hcf, hl, stepBatch] using this
+      | apiErr => simp [fetchTick, hcf, hl]
+      | outOfFuel => simp [fetchTick, hcf, hl]
+
+/-- … over any history of ticks: count answers and page functions of every kind, in any order. -/
+theorem cursor_monotone_over_history (ans : Bytes → TiAns) (ticks : List (Option Int × (Nat → Int → Option Page) × Nat))
+    (hp : ∀ t ∈ ticks, NeverBack t.2.1) (s : WState) :
+    s.fromIndex ≤ (ticks.foldl (fun st t => (fetchTick ans t.1 t.2.1 t.2.2 st).1) s).fromIndex := by
+  induction ticks generalizing s with
+  | nil => exact Int.le_refl _
+  | cons t rest ih =>
+    simp only [List.foldl_cons]
+    have h1 := cursor_never_moves_back (hp t (by simp)) ans t.1 t.2.2 s
+    have h2 := ih (fun t' ht' => hp t' (by simp [ht'])) (fetchTick ans t.1 t.2.1 t.2.2 s).1
+    omega
+
+/-- **A dip served by the lagging backend changes nothing.**  The count is below the cursor and the page request reaches the same
+backend, which holds nothing at the cursor (no events, `nextStart = start`): the watcher is exactly as before and an empty
+batch goes to the event loop. -/
+theorem dip_tick_lagging (ans : Bytes → TiAns) (c : Int) (page : Nat → Int → Option Page) (fuel : Nat) (s : WState)
+    (hc : c < s.fromIndex) (hpg : page 0 s.fromIndex = some ⟨[], s.fromIndex⟩) :
+    fetchTick ans (some c) page (fuel + 1) s = (s, some []) := by
+  have hne : c ≠ s.fromIndex := by omega
+  have hge : s.fromIndex ≥ c := by omega
+  simp [fetchTick, hne, pageLoop, hpg, hge, handleUnconfirmed, stepBatch, addBatch]
+
+/-- **A dip whose page request reaches a healthy backend** (one that serves the append-only log consistently): one page request,
+and what is handed over is the admissible part of the positions `[f, n)` from the cursor `f` on — nothing before the cursor,
+however far below it the count was. -/
+theorem dip_tick_healthy {log : List Event} {vis size : Nat → Nat} {page : Nat → Int → Option Page}
+    (hc : Consistent log vis size page) (ans : Bytes → TiAns) (s : WState) (f : Nat) (c : Int) (fuel : Nat)
+    (hf : s.fromIndex = f) (hcf : c < f) (hfv : f ≤ vis 0) :
+    ∃ n : Nat, f ≤ n ∧ n ≤ log.length ∧
+      (fetchTick ans (some c) page (fuel + 1) s).2 = some (handleUnconfirmed ans ((log.drop f).take (n - f))) ∧
+      (fetchTick ans (some c) page (fuel + 1) s).1.fromIndex = n := by
+  have hans := hc.answer 0 f hfv
+  have hv := hc.vis_le 0
+  refine ⟨min (f + size 0) (vis 0), by omega, by omega, ?_⟩
+  have hne : c ≠ (f : Int) := by omega
+  have hge : ((min (f + size 0) (vis 0) : Nat) : Int) ≥ c := by omega
+  simp [fetchTick, hf, hne, pageLoop, hans, hge, stepBatch]
+
+/-- After any number of dips served by the lagging backend, the first tick with a right count against a consistent node hands
+over the admissible part of `[f, n)` from where the cursor stood before the dips: every position once, none again. -/
+theorem dips_then_recovery {log : List Event} {vis size : Nat → Nat} {page : Nat → Int → Option Page}
+    (hc : Consistent log vis size page) (ans : Bytes → TiAns) (s : WState) (f c fuel : Nat)
+    (dips : List (Int × (Nat → Int → Option Page) × Nat))
+    (hdip : ∀ d ∈ dips, d.1 < s.fromIndex ∧ d.2.1 0 s.fromIndex = some ⟨[], s.fromIndex⟩)
+    (hf : s.fromIndex = f) (hfc : f < c) (hcv : c ≤ vis 0) (hfuel : c - f ≤ fuel) :
+    let s' := dips.foldl (fun st d => (fetchTick ans (some d.1) d.2.1 (d.2.2 + 1) st).1) s
+    ∃ n : Nat, c ≤ n ∧ n ≤ log.length ∧
+      (fetchTick ans (some c) page fuel s').2 = some (handleUnconfirmed ans ((log.drop f).take (n - f))) := by
+  intro s'
+  have hs : s' = s := by
+    show dips.foldl _ s = s
+    induction dips with
+    | nil => rfl
+    | cons d rest ih =>
+      simp only [List.foldl_cons]
+      rw [dip_tick_lagging ans d.1 d.2.1 d.2.2 s (hdip d (by simp)).1 (hdip d (by simp)).2]
+      exact ih (fun d' hd' => hdip d' (by simp [hd']))
+  obtain ⟨n, h1, h2, h3, _, _⟩ := fetch_tick hc ans s f c fuel hf hfc hcv hfuel
+  exact ⟨n, h1, h2, by rw [hs]; exact h3⟩
+
+/-- the lagging backend of `exPageF`'s node: it holds the first `have` of the three events and nothing beyond -/
+private def exPageLag (have_ : Nat) : Nat → Int → Option Page := fun _ s =>
+  if s.toNat ≥ have_ then some ⟨[], s⟩ else some ⟨(exLogF.drop s.toNat).take 1, (min (s.toNat + 1) have_ : Nat)⟩
+
+/-- **Letting the cursor follow a lower count hands messages over twice** — the witness: three token-bridge messages fetched
+(sequences 10, 11, 12; cursor 3), one count poll answers 1, the next one 3 again.  The watcher whose cursor follows the count
+fetches and hands over sequences 11 and 12 a second time; the pinned loop asks the lagging backend for a page at its cursor,
+gets nothing, stays at 3 and hands over nothing again. -/
+theorem following_the_count_refetches :
+    seqsOf (fetchTickFollow (fun _ => .apiErr) (some 3) (exPageF none) 5 {}) = some [10, 11, 12] ∧
+    (fetchTickFollow (fun _ => .apiErr) (some 1) (exPageLag 1) 5 (fetchTickFollow (fun _ => .apiErr) (some 3) (exPageF none) 5 {}).1).1.fromIndex = 1 ∧
+    seqsOf (fetchTickFollow (fun _ => .apiErr) (some 3) (exPageF none) 5
+      (fetchTickFollow (fun _ => .apiErr) (some 1) (exPageLag 1) 5 (fetchTickFollow (fun _ => .apiErr) (some 3) (exPageF none) 5 {}).1).1) = some [11, 12] ∧
+    seqsOf (fetchTick (fun _ => .apiErr) (some 1) (exPageLag 1) 5 (fetchTick (fun _ => .apiErr) (some 3) (exPageF none) 5 {}).1) = some [] ∧
+    (fetchTick (fun _ => .apiErr) (some 1) (exPageLag 1) 5 (fetchTick (fun _ => .apiErr) (some 3) (exPageF none) 5 {}).1).1.fromIndex = 3 ∧
+    seqsOf (fetchTick (fun _ => .apiErr) (some 3) (exPageF none) 5
+      (fetchTick (fun _ => .apiErr) (some 1) (exPageLag 1) 5 (fetchTick (fun _ => .apiErr) (some 3) (exPageF none) 5 {}).1).1) = none := by
+  decide
+
+-- the hypotheses of the dip theorems on the example node: it never sends a client back; the lagging backend has nothing at cursor 3
+example : NeverBack (exPageLag 1) := by
+  intro k s p h
+  simp only [exPageLag] at h
+  split at h
+  · cases h; exact Int.le_refl _
+  · cases h; simp only; omega
+example : exPageLag 1 0 3 = some ⟨[], 3⟩ := by simp [exPageLag]
+example : fetchTick (fun _ => .apiErr) (some 1) (exPageLag 1) 5 { fromIndex := 3 } = ({ fromIndex := 3 }, some []) :=
+  dip_tick_lagging _ 1 (exPageLag 1) 4 { fromIndex := 3 } (by decide) (by simp [exPageLag])
+example : Consistent exLog3 (fun _ => 3) (fun _ => 2) exPage3 ∧ ((0 : Int) < (2 : Nat)) ∧ 2 ≤ (fun _ : Nat => 3) 0 := ⟨by
+  exact { size_pos := fun _ => by decide, vis_mono := fun _ => Nat.le_refl _, vis_le := fun _ => by decide, answer := fun k s _ => by simp [exPage3] }, by decide, by decide⟩
+
 /-! ## token metadata is asked for in the token's own group
 
 `ans` — the answers of the token contracts — is indexed by the token id alone: the model asks for the metadata of token `t`
